@@ -23,6 +23,9 @@ RULE = ("tables: every block over {-1,0,1/2,2} up to length 3 (4 thorough) x eve
         "coefficients (tables: at least 3 samples and 2 lags). Distinct = distinct case hash.")
 EXHAUSTIVE = {"quick": False, "thorough": False}
 trusted_base = [
+  "translator harness/C10_translate.py (Python ast -> Gen_Tables.v over the vocabulary of C10/TabLib.v: Z integers, "
+  "xrange as zrange, negative list indices wrap, an out-of-range index reads 0) for acorr / lag_matrix / toeplitz; "
+  "Proofs_Gen.v proves the generated definitions equal to the hand-written table models on every input",
   "samples and lags are exact rationals (ExactQ absorbs the ints 0/1 the library mixes in); float rounding of "
   "the library's arithmetic is outside the statement ('in exact arithmetic all of these are equalities')",
   "ZFilter/Poly arithmetic (+, -, scalar *, f(1/z) * z**-m, numlist) is modelled as coefficient-list arithmetic; "
@@ -33,6 +36,12 @@ ASSUMPTIONS = ["CPython list / generator / sum semantics as documented"]
 # Qc arithmetic on long numerators is slow under vm_compute and one case file is evaluated by one coqc process:
 # smaller files keep all 16 cores busy (read by Checker.run_family at call time; this process only).
 _fw.CASES_PER_FILE = 40
+
+def pregen(chk):
+  """Regenerates coq/theories/C10/Gen_Tables.v from the current source of acorr / lag_matrix / toeplitz."""
+  from C10_translate import regenerate
+  return regenerate(_fw.REPO, _fw.ROOT)
+
 
 SMALL_T = [Fraction(-1), Fraction(0), Fraction(1, 2), Fraction(2)]
 SMALL_L = [Fraction(-1), Fraction(0), Fraction(1), Fraction(2)]
@@ -172,6 +181,29 @@ def lit_tab(c, o):
   return "(TC %s %s %s %s %s)" % (qlist(c["blk"]), lit_order(c["lag"]), ac, lm, tp)
 
 
+def gen_tabz(tier, rng):
+  maxlen = 3 if tier == "quick" else 4
+  for n in range(0, maxlen + 1):
+    for blk in itertools.product(SMALL_T, repeat=n):
+      if tier == "quick" and n == 3 and rng.random() < 0.5:
+        continue
+      for lag in [None, -3, -1] + list(range(0, n + 2)):
+        yield {"blk": [fr(v) for v in blk], "lag": lag,
+               "tags": ["exh", "len=%d" % n, "lag<0" if (lag is not None and lag < 0) else order_tag(lag, n)]}
+  for _ in range(100 if tier == "quick" else 1500):
+    n = rng.randrange(2, 11)
+    lag = rng.choice([None, -1, -n, -n - 1] + list(range(0, n + 3)))
+    yield {"blk": [fr(v) for v in rblock(rng, n)], "lag": lag,
+           "tags": ["random", "lag<0" if (lag is not None and lag < 0) else order_tag(lag, n)]}
+
+
+def lit_tabz(c, o):
+  ac = qlist(o["acorr"]) if "acorr" in o else BOGUS
+  lm = ("(TOk %s)" % L.lst([qlist(r) for r in o["lagm"]])) if "lagm" in o else "(TErr %s)" % L.string(o.get("lagm_raise", "?")[:60])
+  tp = L.lst([qlist(r) for r in o["toep"]]) if "toep" in o else "[%s]" % BOGUS
+  return "(ZC %s %s %s %s %s)" % (qlist(c["blk"]), L.option(c["lag"], L.z), ac, lm, tp)
+
+
 def nontrivial_tab(c, o):
   return len(c["blk"]) >= 3 and (c["lag"] is None or c["lag"] >= 1) and any(v[0] for v in c["blk"])
 
@@ -265,6 +297,32 @@ def lit_kac(c, o):
 
 
 # ---------------------------------------------------------------------------------------------- lpc.kcovar
+def _kcovar_returns(x, p):
+  """Harness-side screening only: would the covariance Gram-Schmidt reach order p with every |k| < 1?"""
+  N = len(x)
+  if p < 1 or p >= N:
+    return False
+  phi = [[sum((x[n - i] * x[n - j] for n in range(p, N)), Fraction(0)) for j in range(p + 1)] for i in range(p + 1)]
+  ip = lambda a, b: sum((phi[i][j] * a[i] * b[j] for i in range(p + 1) for j in range(p + 1)), Fraction(0))
+  unit = lambda m: [Fraction(int(i == m)) for i in range(p + 1)]
+  A, B = unit(0), [unit(1)]
+  beta = [ip(B[0], B[0])]
+  for m in range(1, p + 1):
+    if beta[m - 1] == 0:
+      return False
+    k = -ip(A, unit(m)) / beta[m - 1]
+    if abs(k) >= 1:
+      return False
+    A = [a + k * b for a, b in zip(A, B[m - 1])]
+    if m < p:
+      nb = unit(m + 1)
+      for q in range(m):
+        g = ip(unit(m + 1), B[q]) / beta[q]
+        nb = [u - g * v for u, v in zip(nb, B[q])]
+      B.append(nb); beta.append(ip(nb, nb))
+  return True
+
+
 def gen_kcv(tier, rng):
   maxlen = 3 if tier == "quick" else 4
   for n in range(0, maxlen + 1):
@@ -276,12 +334,17 @@ def gen_kcv(tier, rng):
     order = rng.choice([1, 1, 2, 2, 3, 3, 4, 5] if tier != "quick" else [1, 1, 2, 2, 3, 3, 4])
     n = order + rng.randrange(0, 9 if tier != "quick" else 6) if rng.random() < 0.9 else rng.randrange(1, order + 1)
     n = max(n, 1)
-    kind = rng.choice(["decay", "decay", None])
-    if kind == "decay":  # a decaying resonance plus noise: stable predictors are the common outcome
-      g = rng.choice([Fraction(1, 2), Fraction(2, 3), Fraction(3, 4), Fraction(-1, 2)])
-      blk = [(g ** i) * rng.choice([1, 1, -1]) * rng.randrange(1, 4) + Fraction(rng.randrange(-1, 2), 4) for i in range(n)]
-    else:
-      blk = rblock(rng, n)
+    # bias towards blocks on which the covariance recursion returns (|k| < 1 at every stage): up to 4 candidates are
+    # screened with a harness-side replica of the stage test (generation only; nothing is checked against it)
+    for attempt in range(4):
+      kind = rng.choice(["decay", "decay", None])
+      if kind == "decay":  # a decaying resonance plus noise
+        g = rng.choice([Fraction(1, 2), Fraction(2, 3), Fraction(3, 4), Fraction(-1, 2)])
+        blk = [(g ** i) * rng.choice([1, 1, -1]) * rng.randrange(1, 4) + Fraction(rng.randrange(-1, 2), 4) for i in range(n)]
+      else:
+        blk = rblock(rng, n)
+      if rng.random() < 0.25 or _kcovar_returns(blk, order):
+        break
     if rng.random() < 0.04:
       order_arg = None
     else:
@@ -306,6 +369,8 @@ def lit_kcv(c, o):
 IMPORTS = "From AL Require Import C10.Model C10.Spec C10.Check."
 FAMILIES = {
   "tab": Family("tab", IMPORTS, "tcase", "corr_tab", "holds_tab", gen_tab, run_tab, lit_tab, nontrivial_tab),
+  "tabz": Family("tabz", IMPORTS + " From AL Require Import C10.TabLib C10.Gen_Tables.", "zcase", "corr_tabz", "holds_tabz",
+                 gen_tabz, run_tab, lit_tabz, nontrivial_tab),
   "lev": Family("lev", IMPORTS, "lcase", "corr_lev", "holds_lev", gen_lev, run_lev, lit_lev, nontrivial_filter),
   "kac": Family("kac", IMPORTS, "acase", "corr_kac", "holds_kac", gen_kac, run_kac, lit_kac, nontrivial_filter),
   "kcv": Family("kcv", IMPORTS, "ccase", "corr_kcv", "holds_kcv", gen_kcv, run_kcv, lit_kcv, nontrivial_filter),
